@@ -212,6 +212,7 @@ coap_rebuild_pdu_for_proxy(coap_pdu_t *pdu) {
   coap_opt_t *option;
   uint8_t option_value_buffer[15];
   coap_optlist_t *optlist_chain = NULL;
+  coap_optlist_t *opt_entry;
   coap_binary_t *proxy_uri = NULL;
 
   if ((option =
@@ -265,8 +266,12 @@ coap_rebuild_pdu_for_proxy(coap_pdu_t *pdu) {
                                  &optlist_chain))
       goto error;
   }
-  if (!coap_add_optlist_pdu(pdu, &optlist_chain))
-    goto error;
+  /* coap_add_optlist_pdu() cannot be used: the PDU may already hold its data */
+  for (opt_entry = optlist_chain; opt_entry; opt_entry = opt_entry->next) {
+    if (!coap_insert_option(pdu, opt_entry->number, opt_entry->length,
+                            opt_entry->data))
+      goto error;
+  }
 
   if (!coap_insert_option(pdu,
                           COAP_OPTION_PROXY_SCHEME,
